@@ -130,7 +130,7 @@ P_C11(pre, e) ==
                 \* (live trades are compared on what the new instance can find: trades with a live bet at the exchange;
                 \*  an order that never got there - still PENDING at the crash - is gone with the old process)
                 \/ (k \notin DOMAIN e.a.post /\ e.a.pre[k].win = 0 /\ e.a.pre[k].lose = 0 /\ e.a.pre[k].nlivex = 0)
-                \/ (k \in DOMAIN e.a.post /\ e.a.post[k].win = e.a.pre[k].win /\ e.a.post[k].lose = e.a.pre[k].lose
+                \/ (k \in DOMAIN e.a.post /\ (e.a.pre[k].phantom \/ (e.a.post[k].win = e.a.pre[k].win /\ e.a.post[k].lose = e.a.pre[k].lose))
                     /\ (e.a.pre[k].nlivex > 0 <=> e.a.post[k].nlive > 0)),
                 <<k, e.a.pre[k], IF k \in DOMAIN e.a.post THEN e.a.post[k] ELSE <<>>>>))
 
@@ -186,6 +186,14 @@ P_C15L(pre, e) ==
           LET left == {o \in LeftLiveWhileIncomplete(pre, e.st) : Has(e.st.mkt, e.st.ord[o].mid)}
           IN Ck("C15", "RemovedOnlyAfterComplete", left = {}, left))
     /\ Ck("C15", "LiveInBlotter", LiveNotInBlotter(e.st) = {}, LiveNotInBlotter(e.st))
+    \* every order adopted from the order stream is in the blotter of its market, once (at quiescent points, where
+    \* adoption is due: the latest image has been processed)
+    /\ (Quiescent(e) =>
+          \A b \in {x \in DOMAIN e.st.xb : ~e.st.xb[x].settled /\ e.st.xb[x].sref = "KNOWN"} :
+             LET holders == {o \in DOMAIN e.st.ord : e.st.ord[o].betid = b /\ e.st.ord[o].inst = e.st.instance}
+             IN Ck("C15", "AdoptedOnceInItsBlotter",
+                   Cardinality({o \in holders : e.st.ord[o].inbl}) <= 1 /\ (holders # {} => \E o \in holders : e.st.ord[o].inbl),
+                   <<b, holders>>))
     \* status filters return precisely the orders that satisfy them, whichever list the code serves them from
     /\ \A mid \in DOMAIN e.st.flt : \A sn \in DOMAIN e.st.flt[mid] :
           LET F == e.st.flt[mid][sn]
